@@ -9,6 +9,7 @@ EXPLANATION = ('Effect / value-flow rules on constructors and seeding methods: R
                'R8.3 a value that may encapsulate a generator (type parameter bounded by Proposal, which offers set_seed) and is cloned from one prototype into '
                'every chain passes through set_seed(., per-chain value) first; R8.4 within a chain the acceptance seed is seed + k (k >= 1 for every index) and '
                'differs from the proposal seed; R8.5 HMC draws one [n_chains, dim] momentum block and n_chains uniforms from its single stream (no expand of a smaller draw).')
+FLOORS = {'obligations': 12}   # counted on the reference tree; fewer instantiated obligations is reported, never passed silently
 TECHNIQUE = 'effect / ownership analysis of constructors and seeding methods over value-flow terms (affine seed forms, clone provenance)'
 
 
